@@ -12,7 +12,7 @@ ASSUME = [
     'the literal clause "isothermal change of Hnet = dH x reactant fed" is judged where the library defines dH: at 298.15 K with every participant in '
     'its tagged (phase-tagged reaction) or reference (phase-less reaction) phase; elsewhere the same ledger is checked with the reaction heat at the '
     'stream\'s own temperature and phases; real database chemicals (temperature-dependent Hvap) are not exercised',
-    'reaction systems (ReactionSystem) are not driven; infeasible conversions (negative flows) are C05\'s subject and out of contract here',
+    'infeasible conversions (negative flows) are C05\'s subject and out of contract here; reaction systems are flat (their members are single reactions)',
 ]
 
 
@@ -101,7 +101,7 @@ def run(ctx):
                steps_validated_in_contract=stats['ok'], steps_out_of_contract_ignored=stats['ooc'], per_operation_in_contract_steps=stats['ops'],
                exhaustive=False, mc_exhaustive_for_cfg=True,
                samples=[dict(ops=[[s['op'], s['a']] for s in traces[0]['steps'][:3]])],
-               rule='MC: every single / parallel / series set of two library reactions (4 chemicals, mol and wt basis, phase-less and 4 tag vectors, X in {1/2, 1}) '
+               rule='MC: every single / parallel / series / system set of two library reactions (4 chemicals, mol and wt basis, phase-less and 4 tag vectors, X in {1/2, 1}) '
                     'on 4 feeds, followed by up to two of react / adiabatic(Q) / re-heating: enthalpy ledger, definition of dH vs. change of Hnet, adiabatic balance, '
                     'basis consistency. Real objects: random sets over 6 mass-balanced reactions of 5 synthetic chemicals (all three reference phases), single- and '
                     'multi-phase streams at 283-400 K, dH queries, isothermal and adiabatic reactions with heat input; every step judged by TLC')
